@@ -2250,3 +2250,189 @@ Lemma def_raises r m :
   (m_type m = MsgRequestPreVoteResponse /\ r_state r = PreCandidate /\
    prevote_tally r m = VoteWon).
 Proof. reflexivity. Qed.
+
+(* ------------------------------------------------------------------ *)
+(* Part 6: the lease is maintained on a follower that hears from its leader on schedule *)
+
+Lemma msgs_only_log r l r' : msgs_only (r <| r_log := l |>) r' -> only_msgs_log r r'.
+Proof.
+  unfold msgs_only, only_msgs_log. intros H.
+  assert (Hl : r_log r' = l) by (rewrite H; reflexivity).
+  rewrite Hl. rewrite H at 1. destruct r; reflexivity.
+Qed.
+
+Lemma msgs_only_only_msgs_log r r' : msgs_only r r' -> only_msgs_log r r'.
+Proof.
+  intros H. apply msgs_only_log with (l := r_log r).
+  assert (E : r <| r_log := r_log r |> = r) by (destruct r; reflexivity). rewrite E. exact H.
+Qed.
+
+Lemma send_request_snapshot_msgs_only r r' : send_request_snapshot r = Ok r' -> msgs_only r r'.
+Proof.
+  unfold send_request_snapshot. intros H. ib H t Ht. destruct t; [|discriminate].
+  eapply send_msgs_only; eassumption.
+Qed.
+
+Lemma handle_heartbeat_only r m r' : handle_heartbeat r m = Ok r' -> only_msgs_log r r'.
+Proof.
+  unfold handle_heartbeat. intros H. ib H l' Hl. apply msgs_only_log with (l := l').
+  dtop H; [apply send_request_snapshot_msgs_only in H|apply send_msgs_only in H]; exact H.
+Qed.
+
+Lemma handle_append_entries_only r m r' : handle_append_entries r m = Ok r' -> only_msgs_log r r'.
+Proof.
+  unfold handle_append_entries. intros H.
+  dtop H; [apply msgs_only_only_msgs_log, send_request_snapshot_msgs_only; exact H|].
+  dtop H; [apply msgs_only_only_msgs_log; eapply send_msgs_only; exact H|].
+  ib H y Hy. destruct y as [l' res]. apply msgs_only_log with (l := l').
+  destruct res as [[a last_idx]|].
+  - eapply send_msgs_only; exact H.
+  - ib H z Hz. destruct z as [hi [ht|]]; [|discriminate]. eapply send_msgs_only; exact H.
+Qed.
+
+(* a heartbeat or append of the current term on a follower: timer cleared, sender
+   recorded as leader, besides that only log and outbox change *)
+Theorem follower_leader_msg r m r' c :
+  r_state r = Follower -> (m_type m = MsgHeartbeat \/ m_type m = MsgAppend) ->
+  m_term m = r_term r -> step r m = Ok (r', c) ->
+  only_msgs_log (r <| r_election_elapsed := 0 |> <| r_leader_id := m_from m |>) r'.
+Proof.
+  intros Hs Ht Hterm H. rewrite step_eq in H. unfold step_pre in H.
+  rewrite Hterm, N.ltb_irrefl in H.
+  assert (Hb : step_body r m = Ok (r', c)) by (destruct (r_term r =? 0); exact H).
+  clear H. unfold step_body in Hb. rewrite Hs in Hb. unfold step_follower in Hb.
+  destruct Ht as [Ht|Ht]; rewrite Ht in Hb.
+  - change (MsgHeartbeat =? MsgHup) with false in Hb.
+    change ((MsgHeartbeat =? MsgRequestVote) || (MsgHeartbeat =? MsgRequestPreVote)) with false in Hb.
+    change (MsgHeartbeat =? MsgPropose) with false in Hb.
+    change (MsgHeartbeat =? MsgAppend) with false in Hb.
+    change (MsgHeartbeat =? MsgHeartbeat) with true in Hb. cbv iota in Hb.
+    ib Hb y Hy. okinv Hb. apply handle_heartbeat_only in Hy. exact Hy.
+  - change (MsgAppend =? MsgHup) with false in Hb.
+    change ((MsgAppend =? MsgRequestVote) || (MsgAppend =? MsgRequestPreVote)) with false in Hb.
+    change (MsgAppend =? MsgPropose) with false in Hb.
+    change (MsgAppend =? MsgAppend) with true in Hb. cbv iota in Hb.
+    ib Hb y Hy. okinv Hb. apply handle_append_entries_only in Hy. exact Hy.
+Qed.
+
+(* a tick before the (randomized) timeout only counts *)
+Lemma tick_waits r :
+  r_state r <> Leader -> r_election_elapsed r + 1 < r_randomized_election_timeout r ->
+  tick r = Ok (r <| r_election_elapsed := r_election_elapsed r + 1 |>, false).
+Proof.
+  intros Hs Hlt. unfold tick.
+  assert (E : tick_election r = Ok (r <| r_election_elapsed := r_election_elapsed r + 1 |>, false)).
+  { unfold tick_election, pass_election_timeout. cbn.
+    assert (F : (r_randomized_election_timeout r <=? r_election_elapsed r + 1) = false)
+      by (apply N.leb_gt; exact Hlt).
+    rewrite F. reflexivity. }
+  destruct (r_state r); try exact E. contradiction.
+Qed.
+
+(* the schedule, relative to the follower's term [t], leader [l] and election timeout
+   [et]; [e] is the election timer.  Ticks must stay below the timeout, the leader's
+   heartbeats/appends of term [t] clear the timer, and any higher-term non-transfer
+   (pre-)vote request may arrive at any point *)
+Fixpoint on_schedule (t l et e : N) (ins : list input) : Prop :=
+  match ins with
+  | [] => True
+  | ITick :: rest => e + 1 < et /\ on_schedule t l et (e + 1) rest
+  | IStep m :: rest =>
+      ((m_type m = MsgHeartbeat \/ m_type m = MsgAppend) /\ m_term m = t /\ m_from m = l /\
+       on_schedule t l et 0 rest) \/
+      ((m_type m = MsgRequestVote \/ m_type m = MsgRequestPreVote) /\ t < m_term m /\
+       list_eqb (m_context m) CAMPAIGN_TRANSFER = false /\ on_schedule t l et e rest)
+  end.
+
+Definition lease_inv (r0 r : raft) : Prop :=
+  r_state r = Follower /\ r_term r = r_term r0 /\ r_vote r = r_vote r0 /\
+  r_leader_id r = r_leader_id r0 /\ r_check_quorum r = true /\
+  r_election_timeout r = r_election_timeout r0 /\
+  r_randomized_election_timeout r = r_randomized_election_timeout r0 /\
+  r_election_elapsed r < r_election_timeout r.
+
+(* lease_maintained + non-disruption of a majority member: a follower with
+   check_quorum that hears from its leader on schedule stays a follower of the same
+   term, vote and leader, and inside the lease, whatever higher-term (pre-)vote
+   requests are delivered to it in between *)
+Theorem follower_lease_window : forall ins r0 r r',
+  r_leader_id r0 <> INVALID_ID ->
+  r_election_timeout r0 <= r_randomized_election_timeout r0 ->
+  lease_inv r0 r ->
+  on_schedule (r_term r0) (r_leader_id r0) (r_election_timeout r0) (r_election_elapsed r) ins ->
+  run r ins = Ok r' -> lease_inv r0 r'.
+Proof.
+  induction ins as [|i rest IH]; intros r0 r r' Hl Hrt Hinv Hs H; cbn [run] in H.
+  - okinv H. exact Hinv.
+  - destruct Hinv as (I1 & I2 & I3 & I4 & I5 & I6 & I7 & I8).
+    ib H r1 H1. destruct i as [m|]; cbn [on_schedule] in Hs; cbn [apply_input] in H1.
+    + ib H1 y Hy. okinv H1. destruct y as [r1 c]. cbn [fst] in *.
+      destruct Hs as [(Ht & Hterm & Hfrom & Hs)|(Ht & Hterm & Hctx & Hs)].
+      * apply follower_leader_msg in Hy; [|exact I1|exact Ht|congruence].
+        assert (Hinv1 : lease_inv r0 r1 /\ r_election_elapsed r1 = 0).
+        { unfold only_msgs_log in Hy. rewrite Hy. cbn. unfold lease_inv. cbn.
+          repeat split; try assumption; try congruence. lia. }
+        destruct Hinv1 as [Hinv1 He]. refine (IH r0 r1 r' Hl Hrt Hinv1 _ H).
+        rewrite He. exact Hs.
+      * rewrite lease_ignores_vote_requests in Hy;
+          [|exact Ht|lia|exact I5|congruence|exact I8|exact Hctx].
+        okinv Hy. refine (IH r0 r1 r' Hl Hrt _ Hs H).
+        unfold lease_inv. auto 10.
+    + destruct Hs as [Hlt Hs].
+      rewrite tick_waits in H1; [|congruence|lia]. cbn [bind fst] in H1. okinv H1.
+      refine (IH r0 (r <| r_election_elapsed := r_election_elapsed r + 1 |>) r' Hl Hrt _ Hs H).
+      unfold lease_inv. cbn. repeat split; try assumption. lia.
+Qed.
+
+Lemma def_on_schedule t l et e ins :
+  on_schedule t l et e ins <->
+  match ins with
+  | [] => True
+  | ITick :: rest => e + 1 < et /\ on_schedule t l et (e + 1) rest
+  | IStep m :: rest =>
+      ((m_type m = MsgHeartbeat \/ m_type m = MsgAppend) /\ m_term m = t /\ m_from m = l /\
+       on_schedule t l et 0 rest) \/
+      ((m_type m = MsgRequestVote \/ m_type m = MsgRequestPreVote) /\ t < m_term m /\
+       list_eqb (m_context m) CAMPAIGN_TRANSFER = false /\ on_schedule t l et e rest)
+  end.
+Proof. destruct ins as [|[m|] rest]; reflexivity. Qed.
+
+Lemma def_lease_inv r0 r :
+  lease_inv r0 r <->
+  r_state r = Follower /\ r_term r = r_term r0 /\ r_vote r = r_vote r0 /\
+  r_leader_id r = r_leader_id r0 /\ r_check_quorum r = true /\
+  r_election_timeout r = r_election_timeout r0 /\
+  r_randomized_election_timeout r = r_randomized_election_timeout r0 /\
+  r_election_elapsed r < r_election_timeout r.
+Proof. reflexivity. Qed.
+
+Definition xs_heartbeat : msg :=
+  msg_default <| m_type := MsgHeartbeat |> <| m_from := 1 |> <| m_to := 3 |> <| m_term := 2 |>
+              <| m_commit := 3 |>.
+
+(* node 3: nine ticks, a pre-vote request of term 3, a heartbeat, a vote request of
+   term 5, nine more ticks *)
+Definition xs_schedule : list input :=
+  repeat ITick 9 ++
+  [IStep (xs_prevote_req 2 3 3 3 1 3 1); IStep xs_heartbeat;
+   IStep (msg_default <| m_type := MsgRequestVote |> <| m_from := 2 |> <| m_to := 3 |> <| m_term := 5 |>)]
+  ++ repeat ITick 9.
+
+Lemma xs_on_schedule :
+  lease_inv xs_follower xs_follower /\
+  on_schedule (r_term xs_follower) (r_leader_id xs_follower) (r_election_timeout xs_follower)
+              (r_election_elapsed xs_follower) xs_schedule /\
+  exists r', run xs_follower xs_schedule = Ok r' /\ r_election_elapsed r' = 9 /\ r_term r' = 2.
+Proof.
+  split; [unfold lease_inv; vm_compute; repeat split; reflexivity|].
+  split.
+  - change (r_term xs_follower) with 2. change (r_leader_id xs_follower) with 1.
+    change (r_election_timeout xs_follower) with 10. change (r_election_elapsed xs_follower) with 0.
+    unfold xs_schedule. cbn [repeat app on_schedule].
+    do 9 (split; [vm_compute; reflexivity|]).
+    right. split; [right; reflexivity|]. split; [vm_compute; reflexivity|]. split; [reflexivity|].
+    left. split; [left; reflexivity|]. split; [reflexivity|]. split; [reflexivity|].
+    right. split; [left; reflexivity|]. split; [vm_compute; reflexivity|]. split; [reflexivity|].
+    do 9 (split; [vm_compute; reflexivity|]). exact I.
+  - vm_compute. eexists. repeat split; reflexivity.
+Qed.
